@@ -4,6 +4,7 @@ package metadatapart
 
 import (
 	"github.com/jdillenkofer/pithos/internal/checksumutils"
+	"github.com/jdillenkofer/pithos/internal/storage/metadatapart/partstore"
 	"time"
 
 	"github.com/jdillenkofer/pithos/internal/storage"
@@ -135,4 +136,30 @@ func specRequestRedirect(opts *storage.CopyObjectOptions) *string {
 func specSameChecksums(a checksumutils.ChecksumValues, b checksumutils.ChecksumValues) bool {
 	return specSameOpt(a.ETag, b.ETag) && specSameOpt(a.ChecksumCRC32, b.ChecksumCRC32) && specSameOpt(a.ChecksumCRC32C, b.ChecksumCRC32C) &&
 		specSameOpt(a.ChecksumCRC64NVME, b.ChecksumCRC64NVME) && specSameOpt(a.ChecksumSHA1, b.ChecksumSHA1) && specSameOpt(a.ChecksumSHA256, b.ChecksumSHA256)
+}
+
+// ---- C08: one registry reference per part row that shares an existing part ----
+
+// specSameStore: two optional part-store names denote the same store (absent = the default store).
+func specSameStore(a *string, b *string) bool {
+	an := partstore.DefaultPartStoreName
+	if a != nil {
+		an = *a
+	}
+	bn := partstore.DefaultPartStoreName
+	if b != nil {
+		bn = *b
+	}
+	return an == bn
+}
+
+// specCountInStore: how many of the first n parts live in the store named `name`.
+func specCountInStore(parts []metadatastore.Part, n int, name *string) int {
+	if n <= 0 {
+		return 0
+	}
+	if specSameStore(parts[n-1].StoreName, name) {
+		return specCountInStore(parts, n-1, name) + 1
+	}
+	return specCountInStore(parts, n-1, name)
 }
